@@ -22,74 +22,76 @@ SAVE_EPOCH = ("the artifact store is handed a node's value in every iteration of
 SAVE_DUP = ("a node requested by two scopes in the same loop step is executed once but its result is stored and saved "
             "twice (late-arriving duplicate request path of _execute_node feeding _run_node): a write-once store fails the run")
 
+NESTED_LOSER = ("a failure kept inside a resolved inner one-of (its losing candidate) is still seen by __has_subgraph_error "
+                "when a later candidate of an outer one-of reaches the inner one-of's consumer: the later candidate is "
+                "declared failed although its sub-pipeline is healthy")
+SAVE_PENDING = ("a node's result is published (set_node_result) before its artifact save has finished: a notification from "
+                "a sibling lets run() return as soon as the output result exists and the still pending save of the output "
+                "node is cancelled, so a successful run ends without that artifact")
+
 W1 = "v['r.D.want'] >= 1"
-T = [
- # C01
- ("C01", "rec_with_switch", "unexpected_error:NodeErr1", W1 + " and fails(v, 'X')", REC_EAGER),
- ("C01", "rec_with_switch", "wrong_cause:NodeErr1", W1 + " and fails(v, 'X')", REC_EAGER),
- ("C01", "rec_with_oneof", "unexpected_error:NodeErr1", W1 + " and fails(v, 'C1', 'C2')", REC_EAGER),
- ("C01", "rec_with_oneof", "wrong_cause:NodeErr1", W1 + " and fails(v, 'C1', 'C2')", REC_EAGER),
- ("C01", "rec_outside_reader_slow", "schedule_dependent_value", W1, OUTSIDE),
- ("C01", "rec_two_scopes", "schedule_dependent_value", W1, OUTSIDE),
- # C02
- ("C02", "oneof_with_switch_deep", "deadlock", "v['r.S.label0'] == 0 and v['r.X0.kind0'] == 1", SW_ONEOF),
- # C03
- ("C03", "oneof_with_switch", "bad_arg_type:C1.v:NodeErr1", "fails(v, 'X', 'Y')", SW_ONEOF),
- ("C03", "rec_outside_reader", "arg:R.m", W1, OUTSIDE),
- ("C03", "rec_two_scopes", "arg:W.s", W1, OUTSIDE),
- ("C03", "rec_two_scopes", "arg:Y.s", W1, OUTSIDE),
- ("C03", "rec_two_scopes", "arg:X.d", W1, OUTSIDE),
- # C04
- ("C04", "rec_with_switch", "executed_undemanded:X", W1, REC_EAGER),
- ("C04", "rec_with_switch", "executed_undemanded:Y", W1, REC_EAGER),
- ("C04", "rec_with_switch", "executed_more:X:2>1", W1, REC_EAGER),
- ("C04", "rec_with_switch", "executed_more:Y:2>1", W1, REC_EAGER),
- # C09
- ("C09", "rec_with_switch", "executed_undemanded:X", W1, REC_EAGER),
- ("C09", "rec_with_switch", "executed_undemanded:Y", W1, REC_EAGER),
- ("C09", "rec_with_switch", "executed_more:X:2>1", W1, REC_EAGER),
- ("C09", "rec_with_switch", "executed_more:Y:2>1", W1, REC_EAGER),
- ("C09", "oneof_with_switch", "executed_undemanded:C1", "fails(v, 'X', 'Y')", SW_ONEOF),
- # C10
- ("C10", "oneof_with_switch", "executed_undemanded:C1", "fails(v, 'X', 'Y')", SW_ONEOF),
- ("C10", "oneof_with_switch_deep", "executed_undemanded:C1", "fails(v, 'Y')", SW_ONEOF),
- ("C10", "oneof_with_switch_deep", "deadlock", "v['r.S.label0'] == 0 and v['r.X0.kind0'] == 1", SW_ONEOF),
- # C11
- ("C11", "rec_with_switch", "executed_undemanded:X", W1, REC_EAGER),
- ("C11", "rec_with_switch", "executed_undemanded:Y", W1, REC_EAGER),
- ("C11", "rec_with_switch", "executed_more:X:2>1", W1, REC_EAGER),
- ("C11", "rec_with_switch", "executed_more:Y:2>1", W1, REC_EAGER),
- ("C11", "rec_with_oneof", "unexpected_error:NodeErr1", W1 + " and fails(v, 'C1', 'C2')", REC_EAGER),
- ("C11", "rec_with_oneof", "wrong_cause:NodeErr1", W1 + " and fails(v, 'C1', 'C2')", REC_EAGER),
- ("C11", "rec_with_oneof", "executed_undemanded:C2", W1, REC_EAGER),
- ("C11", "rec_with_oneof", "executed_more:C2:2>1", W1, REC_EAGER),
- ("C11", "rec_two_scopes", "arg:W.s", W1, OUTSIDE),
- ("C11", "rec_two_scopes", "arg:Y.s", W1, OUTSIDE),
- ("C11", "rec_two_scopes", "arg:X.d", W1, OUTSIDE),
- # C15
- ("C15", "family_n5", "parameter_dropped_or_merged:f4:declared=x,y:delivered=y",
-  "(v['n4_kind'] == 0 and v['n4_second'] - 1 == v['n4_src']) or "
-  "(v['n4_kind'] == 3 and v['n4_second'] - 1 == [1, 2, 3, 2, 3, 3][v['n4_rec']])", COLLAPSE),
- # C19
- ("C19", "rec_simple", "write_once_store_failed_correct_pipeline:processor__S", W1, SAVE_EPOCH),
- ("C19", "rec_simple_default", "write_once_store_failed_correct_pipeline:processor__S", W1, SAVE_EPOCH),
- ("C19", "rec_inner_start", "write_once_store_failed_correct_pipeline:processor__S", W1, SAVE_EPOCH),
- ("C19", "switch_shared_case", "write_once_store_failed_correct_pipeline:processor__X", "v['r.S.label0'] == 0", SAVE_DUP),
-]
+SWX = "fails(v, 'X', 'Y')"
+T = []
+
+
+def add(prop, job, kinds, where, what):
+    for k in kinds:
+        T.append((prop, job, k, where, what))
+
+
+EAGER4 = ["executed_undemanded:X", "executed_undemanded:Y", "executed_more:X:2>1", "executed_more:Y:2>1"]
+# C01
+add("C01", "rec_with_switch", ["unexpected_error:NodeErr1"], W1 + " and fails(v, 'X')", REC_EAGER)
+add("C01", "rec_with_oneof", ["unexpected_error:NodeErr1", "wrong_cause:NodeErr1"], W1 + " and fails(v, 'C1', 'C2')", REC_EAGER)
+add("C01", "rec_outside_reader_slow", ["schedule_dependent_value"], W1, OUTSIDE)
+add("C01", "rec_two_scopes", ["schedule_dependent_value"], W1, OUTSIDE)
+# C02
+add("C02", "oneof_with_switch_deep", ["deadlock"], "v['r.S.label0'] == 0 and v['r.X0.kind0'] == 1", SW_ONEOF)
+# C03
+add("C03", "oneof_with_switch", ["bad_arg_type:C1.v:NodeErr1"], SWX, SW_ONEOF)
+add("C03", "rec_outside_reader", ["arg:R.m"], W1, OUTSIDE)
+add("C03", "rec_two_scopes", ["arg:W.s"], W1, OUTSIDE)
+# C04
+add("C04", "rec_with_switch", EAGER4, W1, REC_EAGER)
+# C09
+add("C09", "rec_with_switch", EAGER4, W1, REC_EAGER)
+add("C09", "rec_with_switch", ["unexpected_error:NodeErr1"], W1 + " and fails(v, 'X')", REC_EAGER)
+add("C09", "oneof_with_switch", ["bad_arg_type:C1.v:NodeErr1", "executed_undemanded:C1", "wrong_value"], SWX, SW_ONEOF)
+# C10
+add("C10", "oneof_with_switch", ["bad_arg_type:C1.v:NodeErr1", "executed_undemanded:C1", "wrong_value"], SWX, SW_ONEOF)
+add("C10", "oneof_with_switch_deep", ["bad_arg_type:C1.v:NodeErr1", "executed_undemanded:C1", "wrong_value"], "fails(v, 'Y')", SW_ONEOF)
+add("C10", "oneof_with_switch_deep", ["deadlock"], "v['r.S.label0'] == 0 and v['r.X0.kind0'] == 1", SW_ONEOF)
+add("C10", "oneof_reached_twice", ["unexpected_error:OneOfDoesNotHaveResultError", "error_on_computable_run:OneOfDoesNotHaveResultError"],
+    "fails(v, 'C1') and fails(v, 'P')", NESTED_LOSER)
+# C11
+add("C11", "rec_with_switch", EAGER4, W1, REC_EAGER)
+add("C11", "rec_with_switch", ["unexpected_error:NodeErr1"], W1 + " and fails(v, 'X')", REC_EAGER)
+add("C11", "rec_with_oneof", ["unexpected_error:NodeErr1", "wrong_cause:NodeErr1"], W1 + " and fails(v, 'C1', 'C2')", REC_EAGER)
+add("C11", "rec_with_oneof", ["executed_undemanded:C2", "executed_more:C2:2>1"], W1, REC_EAGER)
+add("C11", "rec_two_scopes", ["arg:W.s", "wrong_value"], W1, OUTSIDE)
+# C15
+add("C15", "family_n5", ["parameter_dropped_or_merged:f4:declared=x,y:delivered=y"],
+    "(v['n4_kind'] == 0 and v['n4_second'] - 1 == v['n4_src']) or "
+    "(v['n4_kind'] == 3 and v['n4_second'] - 1 == [1, 2, 3, 2, 3, 3][v['n4_rec']])", COLLAPSE)
+# C19
+for j in ("rec_simple", "rec_simple_default", "rec_inner_start"):
+    add("C19", j, ["write_once_store_failed_correct_pipeline:processor__S"], W1, SAVE_EPOCH)
+add("C19", "switch_shared_case", ["write_once_store_failed_correct_pipeline:processor__X"], "v['r.S.label0'] == 0", SAVE_DUP)
+add("C19", "slow_collab_rhombus", ["not_saved:D"], "v['collab_dur'] >= 1", SAVE_PENDING)
 
 FIXED = [
- ("C05", "25057f2", "CancelledError escaped from chart.run when a failing one-of branch cancelled pending sibling tasks (oneof_diamond: F fails while S is in flight)"),
- ("C02", "3b90d31", "run hung when the selected switch case had already been executed for another consumer (switch_case_also_input, label l1)"),
- ("C09", "3dc9e01", "a switch label without a case left a dead task and the run hung (switch_unknown / switch_deep_unknown, label index 2)"),
- ("C02", "46a9bce", "a one-of candidate returning None was never noticed and the run hung (oneof_none, kind None)"),
- ("C10", "b9b62f0", "a failure three or more dependency steps above a one-of candidate hung the run (oneof_depth3, P0 fails)"),
- ("C07", "b0f441f", "the caller's input_kwargs dict gained an additional_data key (rec_simple, want >= 1)"),
- ("C07", "b1efe0d", "additional_data of a recurrent iteration stayed on the shared DAG.graph and leaked into the next run / overlapping runs (recurrent, want >= 1)"),
- ("C07", "2ecb068", "is_oneof_child was cleared on the shared DAG.graph: from the second run on tried candidates ran eagerly (oneof_fallback)"),
- ("C18", "c47de83", "save(fmt=JSON) raised TypeError and left an empty file that made the key look saved"),
- ("C18", "50c0e30", "glob('<id>.*') aliased ids ('a' vs 'a.b'), treated id characters as wildcards and raised ValueError for '**'"),
- ("C20", "5382014", "viewer config raised ValueError for user-defined node types (family_custom_type)"),
- ("C19", None, "Recurrent markers and contained one-of failures were saved as node artifacts (rec_simple: saved_recurrent_marker; oneof_basic: saved_failure)"),
+ ("C05", "do not read Task.exception()", "CancelledError escaped from chart.run when a failing one-of branch cancelled pending sibling tasks (oneof_diamond: F fails while S is in flight)"),
+ ("C02", "wake the consumers of a switch", "run hung when the selected switch case had already been executed for another consumer (switch_case_also_input, label l1)"),
+ ("C09", "fail the run when a switch label", "a switch label without a case left a dead task and the run hung (switch_unknown / switch_deep_unknown, label index 2)"),
+ ("C02", "a OneOf candidate returning None", "a one-of candidate returning None was never noticed and the run hung (oneof_none, kind None)"),
+ ("C10", "wake the OneOf waiter", "a failure three or more dependency steps above a one-of candidate hung the run (oneof_depth3, P0 fails)"),
+ ("C07", "do not write additional_data", "the caller's input_kwargs dict gained an additional_data key (rec_simple, want >= 1)"),
+ ("C07", "keep additional_data of a recurrent", "additional_data of a recurrent iteration stayed on the shared DAG.graph and leaked into the next run / overlapping runs (recurrent, want >= 1)"),
+ ("C07", "activate OneOf candidates per run", "is_oneof_child was cleared on the shared DAG.graph: from the second run on tried candidates ran eagerly (oneof_fallback)"),
+ ("C18", "save JSON artifacts in text mode", "save(fmt=JSON) raised TypeError and left an empty file that made the key look saved"),
+ ("C18", "look artifacts up by exact file name", "glob('<id>.*') aliased ids ('a' vs 'a.b'), treated id characters as wildcards and raised ValueError for '**'"),
+ ("C20", "viewer config accepts", "viewer config raised ValueError for user-defined node types (family_custom_type)"),
+ ("C19", "do not save Recurrent markers", "Recurrent markers and contained one-of failures were saved as node artifacts (rec_simple: saved_recurrent_marker; oneof_basic: saved_failure)"),
 ]
 
 
@@ -117,9 +119,8 @@ def main():
                          "where": where, "witness": w, "what": what})
     log = subprocess.check_output(["git", "-C", "/repo", "log", "--format=%h %s"]).decode().splitlines()
     fixed = []
-    for prop, commit, what in FIXED:
-        if commit is None:
-            commit = next(l.split()[0] for l in log if "do not save Recurrent markers" in l)
+    for prop, subject, what in FIXED:
+        commit = next(l.split()[0] for l in log if subject in l)
         fixed.append("fixed: property=%s %s %s" % (prop, commit, what))
     out = {"_comment": "Genuine defects of ml-pipeline-engine that the checks reproduce and that were recorded rather than "
                        "repaired (findings), and the repaired ones (fixed; these suppress nothing). Never written at run "
